@@ -296,3 +296,7 @@ def run(chk):
     r5_priority_at_boundary(chk)
     r7_fifo_discipline(chk)
     r8_dealer_direct_send(chk)
+    from rules.c04 import rule_no_await_between_read_and_engine
+    r9 = chk.rule("R9", "bytes taken from the transport cannot be dropped with a cancelled read future", "T10 no .await between take and hand-off",
+                  "the session's read future (one arm of the session loop's select!) has no suspension point between a transport read into its local buffer and ZmtpEngine::on_network_bytes: messages already received are not lost when another arm wins the poll")
+    rule_no_await_between_read_and_engine(chk, r9)
